@@ -157,25 +157,25 @@ ADDED = {
  "C17": "Also: Comparison / arithmetic operators that delegate to a helper are decided by a symbolic fold (C17.d).",
  "C07": "Also: Grid._setup is folded per dimension with a symbolic shape and compared in term normal form with the documented construction (rules/c07sem.py); corner tables are read off the folded stores.",
  "C01": "Also: coordinate/voxel/coordinate_vector are evaluated column-wise on symbolic points per dimension (loop and vectorised forms) against the table; the layout helpers fix the same orientation as the table (shared C20.b).",
- "C02": "Also: the selection is not reshaped after normalisation; CoordinateSystem.voxel/coordinate agree with the axis table (shared C01.b). Image.subregion is folded symbolically for slice / open-slice / VoxelArray / CoordinateArray regions in 2 and 3 dimensions and its result term compared in normal form with the documented construction (rules/c02sem.py).",
- "C03": "Also: geometry constructors do not modify their arguments; an array weight in darsia.weight is broadcast over all voxels. Arguments enter the geometry as passed (a re-binding may convert but not summarise them); cache reads through local aliases are followed by the hidden-state analysis.",
- "C04": "Also: snapshots used for fallback are refreshed per iteration; a reused factorisation belongs to the matrix solved; each stopping criterion uses the tolerance of its own option; face_to_cell interpolates each component along its own axis (shared C06.c).",
- "C05": "Also: the cv2.EMD signature is in physical units with the voxel sizes on their own axes; shared C06.c. A reused factorisation belongs to the matrix solved (shared C04.g); the OpenCV back end does not modify the caller's images (shared C17.a, EMD forms).",
+ "C02": "Also: the selection is not reshaped after normalisation; CoordinateSystem.voxel/coordinate agree with the axis table (shared C01.b). Image.subregion is folded symbolically for slice / open-slice / VoxelArray / CoordinateArray regions in 2 and 3 dimensions and its result term compared in normal form with the documented construction (rules/c02sem.py). Absence of a time / offset is None, never falsiness (Image.append, _is_none).",
+ "C03": "Also: geometry constructors do not modify their arguments; an array weight in darsia.weight is broadcast over all voxels. Arguments enter the geometry as passed (a re-binding may convert but not summarise them); cache reads through local aliases are followed by the hidden-state analysis. No stored quantity depends on num_voxels entries beyond the spatial ones; the folded integral must not depend on payload extents.",
+ "C04": "Also: snapshots used for fallback are refreshed per iteration; a reused factorisation belongs to the matrix solved; each stopping criterion uses the tolerance of its own option; face_to_cell interpolates each component along its own axis (shared C06.c). Arrays reported in the info dictionary are not modified by later calls; assembled block operators are not rescaled as a whole; set-up methods carry no state (shared C08.f).",
+ "C05": "Also: the cv2.EMD signature is in physical units with the voxel sizes on their own axes; shared C06.c. A reused factorisation belongs to the matrix solved (shared C04.g); the OpenCV back end does not modify the caller's images (shared C17.a, EMD forms). Homogeneity-degree analysis: every return path of _compute_face_weight gives (face weight, inverse) the degrees (1, -1) in the cell weights (sa/degree.py).",
  "C06": "Also: scalar / vector / tensor cell quantities select the scalar, component o, diagonal entry (o,o) for orientation o; the tangential operator returns one block per direction, concatenated in order. Face areas are the products of the other axes' voxel sizes (shared C07.d); face_to_cell is folded for 1-3 dimensions and its updates compared as polynomials.",
- "C08": "Also: the solution vector is written only through the solve / back-substitution index maps; cg stops on a relative criterion by default; callers reuse a factorisation only for the matrix it was built for (shared C04.g). Each back-end set-up method builds what it binds from its matrix argument (hidden-state analysis per set-up method, C08.f).",
- "C09": "Also: _src / _dst roles are not mixed in conversions, keyword arguments and attribute stores; truncating casts on the pull-back path (shared C01.d). The typed evaluation, the set_dtype tables, the warp assignment and the destination metadata are decided by symbolic folds; the shared correction workflow is a sub-rule (C10.a/c).",
+ "C08": "Also: the solution vector is written only through the solve / back-substitution index maps; cg stops on a relative criterion by default; callers reuse a factorisation only for the matrix it was built for (shared C04.g). Each back-end set-up method builds what it binds from its matrix argument (hidden-state analysis per set-up method, C08.f). previous_solution of every linear_solve call is an iterate, never the right-hand side; assembled operators carry the same unscaled rows (shared C04.c).",
+ "C09": "Also: _src / _dst roles are not mixed in conversions, keyword arguments and attribute stores; truncating casts on the pull-back path (shared C01.d). The typed evaluation, the set_dtype tables, the warp assignment and the destination metadata are decided by symbolic folds; the shared correction workflow is a sub-rule (C10.a/c). set_parameters stores each passed parameter and keeps each omitted one (all subsets, folded).",
  "C10": "Also: result arrays are not kept on the correction object; Image keeps time_num equal to the number of slices under slicing and append (shared C02.c/d). The shared workflow is folded over input kind x overwrite x series x correct_array_series x scalar; contradictions (input modified, no copy, wrong stacking axis) are violations, other differences undecided.",
- "C11": "Also: the superposition canvas is the bounding box of the inputs with dimensions in matrix order; parity and half length of the coarsening step come from the running array. The function interface reduce_axis forwards axis, the image's space dimension and mode to AxisReduction (C11.g).",
+ "C11": "Also: the superposition canvas is the bounding box of the inputs with dimensions in matrix order; parity and half length of the coarsening step come from the running array. The function interface reduce_axis forwards axis, the image's space dimension and mode to AxisReduction (C11.g). Every Resize option is read under the key prefix; vectors are reduced at their own kind of position.",
  "C12": "Also: __call__ is find_balance followed by the class's own apply_balance; every return of find_balance has stored the fit. One application convention over every apply_balance (matrix product or einsum); restructured find_balance is folded per mode into non-commutative normal forms.",
- "C13": "Also: baseline and baseline collection are taken from the same (converted) list; metadata() -> constructor is a faithful round trip (shared C18.a). The learnt cleaning filter is bounded from below by 0 and dominates every extra baseline's reduced difference (term lower-bound analysis, C13.e).",
- "C14": "Also: CombinedModel forwards exactly the extra arguments a part accepts (argument-count idiom table); the kernel matrix is filled on the full index square including the diagonal; factored-out kernel constants are re-added times the sum of weights. Label-wise models are folded for two labels; optional thresholds are tested with `is None`, never by truth value; compiled kernels may live at module level.",
+ "C13": "Also: baseline and baseline collection are taken from the same (converted) list; metadata() -> constructor is a faithful round trip (shared C18.a). The learnt cleaning filter is bounded from below by 0 and dominates every extra baseline's reduced difference (term lower-bound analysis, C13.e). The default of the stage-order option is the documented order.",
+ "C14": "Also: CombinedModel forwards exactly the extra arguments a part accepts (argument-count idiom table); the kernel matrix is filled on the full index square including the diagonal; factored-out kernel constants are re-added times the sum of weights. Label-wise models are folded for two labels; optional thresholds are tested with `is None`, never by truth value; compiled kernels may live at module level. The cached inverse is dropped whenever the supports are replaced.",
  "C15": "Also (level other): the consumer evaluates the field at the rule's own points through face_to_cell (shared C06.c).",
- "C16": "Also: update_params stores each coefficient whenever its own argument is given and forwards all of them.",
- "C18": "Also: what the npz reader reads reaches the constructor unmodified; byte strings and files are decoded with a flag that keeps bit depth and channels; attributes restored directly by load are written verbatim by save (including configuration methods). The reader class and the pass-through of array and metadata are decided by folding the reader per written key set; imread_from_bytes is folded per decoded shape (wrong kind = violation, unknown data term = undecided).",
- "C19": "Also: an altered selection in Image.subregion is a violation (shared C02.a/b). The per-patch tables are folded on a 2 x 3 grid and compared with the documented constructor; when equal but written differently the rules read the documented construction.",
- "C20": "Also (level other): index kinds are not mixed (matrix positions index matrix-ordered tables, Cartesian positions Cartesian-ordered vectors); CoordinateSystem agrees with the table (shared C01.b). The layout folder models ndim, transpose with explicit axes and tuple-axis flips.",
+ "C16": "Also: update_params stores each coefficient whenever its own argument is given and forwards all of them. No attribute object is modified in place through an alias during a solver call.",
+ "C18": "Also: what the npz reader reads reaches the constructor unmodified; byte strings and files are decoded with a flag that keeps bit depth and channels; attributes restored directly by load are written verbatim by save (including configuration methods). The reader class and the pass-through of array and metadata are decided by folding the reader per written key set; imread_from_bytes is folded per decoded shape (wrong kind = violation, unknown data term = undecided). An attribute written under its own key is read back from that key.",
+ "C19": "Also: an altered selection in Image.subregion is a violation (shared C02.a/b). The per-patch tables are folded on a 2 x 3 grid and compared with the documented constructor; when equal but written differently the rules read the documented construction. The array that seeds the re-assembly carries the base image's dtype.",
+ "C20": "Also (level other): index kinds are not mixed (matrix positions index matrix-ordered tables, Cartesian positions Cartesian-ordered vectors); CoordinateSystem agrees with the table (shared C01.b). The layout folder models ndim, transpose with explicit axes and tuple-axis flips. The auxiliary point that receives a physical cut is a float array of its own.",
 }
-COMMON = " Obligations are three-valued: a violation needs positive evidence (an extracted value that differs, a dataflow fact, a near miss of a recognised idiom); code that is outside the recognised idioms ends in ANALYSIS-ERROR (exit 2), not in a violation (DESIGN.md 7.9). Every property additionally requires that no function of its anchor modules writes process-wide mutable state (module-/class-level containers), except memos keyed injectively on everything the value depends on and never modified in place."
+COMMON = " Obligations are three-valued: a violation needs positive evidence (an extracted or folded value that differs, a dataflow fact, a named contradiction -- never mere dissimilarity from a template); code that is outside the recognised idioms ends in ANALYSIS-ERROR (exit 2), not in a violation (DESIGN.md 7.9). Every property additionally requires that no function of its anchor modules writes process-wide mutable state (module-/class-level containers), except memos keyed injectively on everything the value depends on and never modified in place."
 
 NOT_YET = {}
 
